@@ -80,7 +80,7 @@ func (c02) ID() string    { return "C02" }
 func (c02) RunFn() string { return "run_C02" }
 func (c02) Workers() int  { return 8 }
 func (c02) Rule() string {
-	return "streams of 0-8 top-level elements (client / component / stream / SASL / SM namespaces, ~8% with an undispatchable element) after a real stream header; children drawn from registered extensions with valid content, unknown elements (incl. names body/error/show/message/presence/iq/forwarded/failed below unknown parents), same-named nested stanzas (carbons/MAM shape), known child names, error children, chains of depth up to 200 (thorough 20000), text/CDATA/comments/PIs inside and between elements; each stream read whole, 1 byte per read, random chunks, and (one stream per run) split at every offset; malformed: every truncation of one stream, random byte corruptions, random bytes. distinct = distinct sequence of (top-level kind, child-shape summary); non-trivial = at least 2 top-level elements one of which has element children"
+	return "streams of 0-8 top-level elements (client / component / stream / SASL / SM namespaces, ~8% with an undispatchable element) after a real stream header; stanza start tags with unqualified type/id/from/to, xml:lang and qualified look-alikes (p:id, xmlns:id, q:lang, unqualified lang); children drawn from registered extensions with valid content incl. every one with a hand-written UnmarshalXML (pubsub event, pubsub owner, command, delegation/forwarded, MUC history) holding same-named descendants below unknown children, unknown elements (incl. names body/error/show/message/presence/iq/forwarded/failed below unknown parents), same-named nested stanzas (carbons/MAM shape), known child names, error children, <failed/> with listed, unlisted and unknown children and any h, chains of depth up to 200 (thorough 20000), text/CDATA/comments/PIs inside and between elements; each stream read whole, 1 byte per read, random chunks, and (one stream per run) split at every offset; malformed: every truncation of one stream, random byte corruptions, random bytes. distinct = distinct sequence of (top-level kind, child-shape summary); non-trivial = at least 2 top-level elements one of which has element children"
 }
 
 // ---------------------------------------------------------------- serialisation
